@@ -338,3 +338,21 @@ package workceptor
 //@   site call Copy VERBATIM: [C05] requires arg0 == box(stdout) && arg1 == box(reader) && stdout == lastcall("OpenFile", 0) && lastcall("OpenFile", 1) == nil
 //@   site continue #1 NOTDONE: [C05] requires !(lastcall("IsComplete", 0) && diskStdoutSize >= remoteStdoutSize)
 //@   site call IsComplete OFRECORD: [C05] requires arg0 == lastcall("Status", 0).State && remoteStdoutSize == lastcall("Status", 0).StdoutSize
+
+// replies of the remote node are data: no reply, however short, makes these functions panic
+//@ func (*remoteUnit).cancelOrReleaseRemoteUnit
+//@   tags C05
+//@   safetytags C05
+//@   safety slice index
+//@   requires rw != nil && conn != nil && reader != nil
+//@ func (*remoteUnit).monitorRemoteStatus
+//@   tags C05
+//@   safetytags C05
+//@   safety slice index
+//@   requires rw != nil && mw != nil
+//@   site call UpdateBasicStatus MIRROR: [C05] requires arg0 == si.State && arg1 == si.Detail && arg2 == si.StdoutSize
+//@ func afterErrorPrefix
+//@   tags C05
+//@   safetytags C05
+//@   safety
+//@   modifies nothing
